@@ -947,7 +947,7 @@ fn oracle(case: &Case, outs: &[CallOut]) -> Vec<(&'static str, String)> {
         // ---- consistent_unless_protocol_step_fails: from a consistent state, a call whose
         //      failing effects (if any) are not protocol steps leaves a consistent state
         let before_good = good(&o.before, case.xml);
-        if before_good && seg.iter().all(|e| e.1 == Out::Ok || non_protocol(e.0)) && !good(&o.after, case.xml) {
+        if case.xml.all_good() && before_good && seg.iter().all(|e| e.1 == Out::Ok || non_protocol(e.0)) && !good(&o.after, case.xml) {
             bad.push(("consistent_step", format!("{at}: consistent before ({}), no protocol step failed, but left {}", o.before.show(), o.after.show())));
         }
         // ---- close_clean (per state): consistent before close and no failing effect during it
